@@ -201,13 +201,11 @@ def floorImpl (args : List Value) : Res Value := do
         | .above => i - 1
       pure (Value.numVal (Num.setIntP i' f.prec))
 
-/-- `SignumFunc`: the argument is first decoded into a Go `int` -/
+/-- `SignumFunc`: `cty.NumberIntVal(int64(args[0].AsBigFloat().Sign()))` -/
 def signumImpl (args : List Value) : Res Value := do
   let a ← arg args 0
-  let num ← fromCtyInt a
-  if num < 0 then pure (Value.intVal (-1))
-  else if num > 0 then pure (Value.intVal 1)
-  else pure (Value.intVal 0)
+  let bf ← asBigFloat a
+  pure (Value.intVal bf.sign)
 
 /-! ### log, pow: `cty.NumberFloatVal(<library answer>)` -/
 
